@@ -167,9 +167,12 @@ def run_check(pid, tier, seed, jobs):
             tasks.append((pid, tier, seed, i, None))
     # heavy (split) tasks first
     tasks.sort(key=lambda t: 0 if t[4] else 1)
+    # non-daemonic worker processes: replays may start processes of their own (joblib) and threads
+    from concurrent.futures import ProcessPoolExecutor
+
     ctx = mp.get_context("fork")
-    with ctx.Pool(min(jobs, max(1, len(tasks))), maxtasksperchild=8) as pool:
-        results = pool.map(_worker, tasks, chunksize=1)
+    with ProcessPoolExecutor(max_workers=min(jobs, max(1, len(tasks))), mp_context=ctx) as pool:
+        results = list(pool.map(_worker, tasks, chunksize=1))
     return H, results, pre_info, time.time() - t0
 
 
